@@ -25,6 +25,7 @@ type C20Case struct {
 	Directives []ref.Directive     `json:"directives"`
 	Text       string              `json:"text"`
 	V          string              `json:"v"`
+	From       *ref.Day            `json:"from,omitempty"`
 	To         *ref.Day            `json:"to,omitempty"`
 	Interval   int                 `json:"interval"`
 	Last       int                 `json:"last,omitempty"`
@@ -67,6 +68,9 @@ func init() {
 
 func (c C20Case) windowArgs() []string {
 	var a []string
+	if c.From != nil {
+		a = append(a, "--from", c.From.String())
+	}
 	if c.To != nil {
 		a = append(a, "--to", c.To.String())
 	}
@@ -149,7 +153,11 @@ func checkC20Weights(c C20Case) (o Outcome) {
 		wargs = append(wargs, "-m", c.Mapping)
 	}
 	wargs = append(wargs, "j.knut")
-	bargs := append([]string{"balance", "-v", c.V, "--csv", "-s", "."}, c.windowArgs()...)
+	// the holdings on a date are cumulative: the balance is asked without --from (with it, it reports only what
+	// was booked inside the window), its columns are a superset of the weights columns
+	cb := c
+	cb.From = nil
+	bargs := append([]string{"balance", "-v", c.V, "--csv", "-s", "."}, cb.windowArgs()...)
 	bargs = append(bargs, c.filterArgs()...)
 	bargs = append(bargs, "j.knut")
 	rw := knutio.Run(knutio.Opts{Dir: dir}, wargs...)
@@ -234,6 +242,11 @@ func checkC20Weights(c C20Case) (o Outcome) {
 	}
 	nDatesChecked, held2 := 0, false
 	for _, d := range dates {
+		if _, ok := hold[d]; !ok && c.From != nil && len(bt.Rows) > 0 {
+			// a weights column the balance without --from does not have (a window starting after the last booking)
+			o.Labels = append(o.Labels, "weights-date-not-in-balance")
+			continue
+		}
 		total := new(big.Rat)
 		nz := 0
 		for _, v := range hold[d] {
@@ -338,6 +351,12 @@ func checkC20Weights(c C20Case) (o Outcome) {
 				any = true
 			}
 		}
+		if any && !wd[d] && c.From != nil && len(dates) > 0 && d < dates[0] {
+			continue // a column before the window of the weights report
+		}
+		if any && !wd[d] && c.From != nil && len(dates) == 0 {
+			continue // the window starts after the last booking: no weights columns at all
+		}
 		if any && !wd[d] {
 			o.Violation = V("date-missing", "knut %v\nthe balance reports holdings on %s but portfolio weights has no column for it (columns %v)\n%s", wargs, d, dates, clip(rb.Stdout, 1500))
 			return o
@@ -378,6 +397,9 @@ func checkC20Returns(c C20Case) (o Outcome) {
 		return o
 	}
 	start, end := min, max
+	if c.From != nil && *c.From > start {
+		start = *c.From
+	}
 	if c.To != nil && *c.To < end {
 		end = *c.To
 	}
@@ -556,6 +578,7 @@ func drawC20(t *rapid.T) C20Case {
 	accs := []string{"Assets:Bank", "Assets:Broker", "Assets:Broker:Sub", "Liabilities:Loan", "Equity:Equity", "Income:Salary", "Expenses:Fees"}
 	y := rapid.IntRange(2015, 2022).Draw(t, "year")
 	day := ref.FromCivil(y, rapid.IntRange(1, 12).Draw(t, "month"), rapid.SampledFrom([]int{1, 2, 15, 28}).Draw(t, "dom"))
+	day0 := day
 	var ds []ref.Directive
 	for _, a := range accs {
 		ds = append(ds, ref.Directive{Kind: ref.KOpen, Date: day, Account: a})
@@ -678,6 +701,15 @@ func drawC20(t *rapid.T) C20Case {
 	if rapid.IntRange(0, 2).Draw(t, "to") == 0 || day > ref.FromCivil(2024, 6, 30) {
 		d := day + ref.Day(rapid.IntRange(-60, 40).Draw(t, "toOff"))
 		c.To = &d
+	}
+	if rapid.IntRange(0, 3).Draw(t, "from") == 0 {
+		// a window that starts inside the journal (or before it): positions held before it still count
+		hi := int(day - day0)
+		if hi < 1 {
+			hi = 1
+		}
+		d := day0 + ref.Day(rapid.IntRange(-5, hi).Draw(t, "fromOff"))
+		c.From = &d
 	}
 	return c
 }
